@@ -170,7 +170,7 @@ def font_case(draw):
             kinds.append("duplicate-lookup")
     perm = draw(st.permutations(names))
     colr = draw(st.sampled_from([None, None, 0, 1]))
-    flavour = draw(st.sampled_from(["ttf", "ttf", "ttf", "cff"]))
+    flavour = draw(st.sampled_from(["ttf", "ttf", "ttf", "cff", "cff2"]))
     return {"n": n, "fea": "\n".join(fea), "hand": hand, "perm": list(perm), "colr": colr, "kinds": kinds, "bases": bases, "flavour": flavour}
 
 
@@ -314,7 +314,7 @@ def build_font_for(case):
             colr = {b[0]: {"Format": 1, "Layers": [{"Format": 10, "Glyph": b[1], "Paint": {"Format": 2, "PaletteIndex": 0, "Alpha": 1.0}},
                                                    {"Format": 10, "Glyph": b[2], "Paint": {"Format": 2, "PaletteIndex": 1, "Alpha": 0.5}}]},
                     b[3 % len(b)]: {"Format": 10, "Glyph": b[2], "Paint": {"Format": 2, "PaletteIndex": 1, "Alpha": 1.0}}}
-    mk = make_cff_font if case.get("flavour") == "cff" else make_font
+    mk = make_cff_font if case.get("flavour") in ("cff", "cff2") else make_font
     font, _ = mk(glyphs, {0x41 + i: "g%d" % i for i in range(n)}, advances={"g%d" % i: 500 + 7 * i for i in range(n)}, colr=colr,
                  colr_version=case["colr"] or 0, palettes=palettes)
     addOpenTypeFeaturesFromString(font, case["fea"])
@@ -327,6 +327,13 @@ def build_font_for(case):
             continue
         t.LookupList.Lookup.append(lk)
         t.LookupList.LookupCount = len(t.LookupList.Lookup)
+    if case.get("flavour") == "cff2":
+        # CFF2 stores no charset of its own: the names of its charstrings are the font's glyph order at the moment they are read
+        from fontTools.cffLib.CFFToCFF2 import convertCFFToCFF2
+
+        convertCFFToCFF2(font)
+        post = font["post"]  # glyph names then live in post (format 2), as in the cff2 fonts nanoemoji writes with keep_glyph_names
+        post.formatType, post.extraNames, post.mapping = 2.0, [], {}
     buf = io.BytesIO()
     font.save(buf)
     return buf.getvalue()
@@ -427,7 +434,7 @@ def judge(case):
         label = key
         if isinstance(kind, tuple) and kind and isinstance(kind[0], str):
             label = kind[0] + (str(kind[1]) if len(kind) > 1 and isinstance(kind[1], int) else "")
-        v.fail("meaning-changed", label + (":cff" if case.get("flavour") == "cff" else ""), {"key": key, "before": a, "after": b})
+        v.fail("meaning-changed", label + (":" + case["flavour"] if case.get("flavour") in ("cff", "cff2") else ""), {"key": key, "before": a, "after": b})
     if bad:
         v.fail("coverage-unsorted", bad[0][0], {"coverage": bad[0][1], "gids": bad[0][2], "n": len(bad)})
     if msgs:
